@@ -6,6 +6,13 @@ use crate::streaming::event::StreamEvent;
 use std::collections::VecDeque;
 use std::time::Duration;
 
+/// A window duration in whole milliseconds, saturating: a duration of 2^64 ms or more
+/// (`Duration::MAX` as "no bound") used to be truncated by `as_millis() as u64` to a small
+/// value, which made a window that should never slide anything out evict almost everything.
+fn saturating_millis(duration: &Duration) -> u64 {
+    u64::try_from(duration.as_millis()).unwrap_or(u64::MAX)
+}
+
 /// Type of time window
 #[derive(Debug, Clone, PartialEq)]
 pub enum WindowType {
@@ -42,7 +49,7 @@ impl TimeWindow {
         start_time: u64,
         max_events: usize,
     ) -> Self {
-        let end_time = start_time + duration.as_millis() as u64;
+        let end_time = start_time.saturating_add(saturating_millis(&duration));
 
         Self {
             window_type,
@@ -88,7 +95,7 @@ impl TimeWindow {
     pub fn record(&mut self, event: StreamEvent) {
         if self.window_type == WindowType::Sliding {
             let now = event.metadata.timestamp;
-            self.start_time = now.saturating_sub(self.duration.as_millis() as u64);
+            self.start_time = now.saturating_sub(saturating_millis(&self.duration));
             self.end_time = now + 1; // inclusive of `now` itself
         }
 
@@ -127,7 +134,7 @@ impl TimeWindow {
 
     /// Get window duration in milliseconds
     pub fn duration_ms(&self) -> u64 {
-        self.duration.as_millis() as u64
+        saturating_millis(&self.duration)
     }
 
     /// Clear all events from window
@@ -278,7 +285,7 @@ impl WindowManager {
     fn calculate_window_start(&self, event_time: u64) -> u64 {
         match self.window_type {
             WindowType::Tumbling => {
-                let window_ms = self.duration.as_millis() as u64;
+                let window_ms = saturating_millis(&self.duration);
                 (event_time / window_ms) * window_ms
             }
             WindowType::Sliding | WindowType::Session { .. } => event_time,
